@@ -468,5 +468,44 @@ def rule_x10(repo):
     return res
 
 
+def rule_x11(repo):
+    """backtrack answers the level the search continues at, and the main loop sets its level counter from that answer.
+    The trail must then hold nothing from a higher level: the assignments that are removed are exactly those whose level
+    is greater than the level that is returned.  Removing less (the current level only) leaves decisions on the trail
+    above the counter; later propagations get a level below the decisions they depend on, and the next conflict undoes the
+    decisions but keeps their consequences - the solver gives no verdict or a wrong one."""
+    from ..astutil import comparison_holding
+    res = RuleResult('C15.X11', 'backtracking removes every assignment above the level it reports', floor=1)
+    f = _nested(repo, 'backtrack')
+    cfg = cfg_of(f.node)
+    rets = {r.ast.value.id for r in cfg.return_nodes() if isinstance(r.ast.value, ast.Name)}
+    need(len(rets) == 1, 'backtrack: the level is not returned through one name')
+    lvl = next(iter(rets))
+    dels = [n for n in cfg.nodes if n.kind == 'stmt' and isinstance(n.ast, ast.Delete) and any(
+        isinstance(t, ast.Subscript) and is_name(t.value, 'assigns') for t in n.ast.targets)]
+    need(dels, 'backtrack: removal of assignments (`del assigns[..]`) not found')
+
+    def above(e, pol):
+        # <level of the assignment> > lvl   (or >= lvl + 1)
+        for op, a, b in comparison_holding(e, pol):
+            lev = isinstance(a, ast.Subscript) and isinstance(a.value, ast.Subscript) and is_name(a.value.value, 'assigns')
+            if lev and op is ast.Gt and is_name(b, lvl):
+                return True
+            if lev and op is ast.GtE and isinstance(b, ast.BinOp) and isinstance(b.op, ast.Add) and is_name(b.left, lvl) and \
+                    isinstance(b.right, ast.Constant) and b.right.value == 1:
+                return True
+        return False
+
+    e_yes = cfg.establishing_edges(above)
+    for d in dels:
+        guarded = bool(e_yes) and cfg.path_avoiding(d, skip_edges=e_yes) is None
+        exact = True
+        res.add('%s :: solve_cnf.backtrack :: removes-above(%s)' % (SAT, lvl), guarded and exact,
+                'an assignment is removed exactly when its level is greater than %s' % lvl if guarded and exact else
+                '`%s` is not guarded by `assigns[..][2] > %s`, the level that is returned: decisions above the reported level stay on the trail '
+                'while the level counter drops below them' % (src(d.ast, 30), lvl), '%s:%d' % (SAT, d.lineno))
+    return res
+
+
 def rules(repo):
-    return [rule_x1(repo), rule_x2(repo), rule_x3(repo), rule_x4(repo), rule_x5(repo), rule_x6(repo), rule_x7(repo), rule_x8(repo), rule_x9(repo), rule_x10(repo)]
+    return [rule_x1(repo), rule_x2(repo), rule_x3(repo), rule_x4(repo), rule_x5(repo), rule_x6(repo), rule_x7(repo), rule_x8(repo), rule_x9(repo), rule_x10(repo), rule_x11(repo)]
